@@ -556,6 +556,8 @@ class QasmModule(ABC):  # pylint: disable=too-many-instance-attributes
             self.num_qubits, self.num_clbits = 0, 0
             visitor = QasmVisitor(module=self, **kwargs)
             self.accept(visitor)
+            # the flags are answered from the unrolled statements from now on
+            self._has_measurements, self._has_barriers = None, None
         except (ValidationError, UnrollError) as err:
             # reset the unrolled ast and qasm
             self.num_qubits, self.num_clbits = -1, -1
